@@ -38,6 +38,9 @@ class Target:
         elif kind == "needle":  # one very narrow mode (sigma = 0.03% of the cube): log-likelihood range ~1e7, the first positive temperature is tiny
             self.mu = np.linspace(-1.0, 1.0, n_dim) if n_dim > 1 else np.array([0.5])
             self.sig = np.full(n_dim, 0.003)
+        elif kind == "banana":  # curved ridge: the hierarchical clusterer cuts it into ADJACENT clusters (points near the cuts)
+            self.mu = np.zeros(n_dim)
+            self.sig = np.ones(n_dim)
         elif kind == "edge":  # posterior mass abuts the lower prior boundary
             self.mu = np.full(n_dim, lo)
             self.sig = np.full(n_dim, 1.0)
@@ -60,6 +63,13 @@ class Target:
             return float(0.0 + self.shift) if all(abs(x[j]) < 3.0 for j in range(self.n_dim)) else -np.inf
         if getattr(self, "nan_pocket", None) and sum((x[j] - self.mu[j]) ** 2 for j in range(self.n_dim)) < self.nan_pocket ** 2:
             return float("nan")
+        if self.kind == "banana":
+            a = x[0]
+            b = x[1] - 0.6 * (x[0] * x[0] - 2.0)
+            s = -0.5 * (a / 1.6) ** 2 - 0.5 * (b / 0.25) ** 2
+            for j in range(2, self.n_dim):
+                s += -0.5 * x[j] ** 2
+            return float(s + self.shift)
         if self.kind in ("bimodal", "narrow"):
             a = 0.0
             b = 0.0
